@@ -171,9 +171,12 @@ def registry():
 # ---------------------------------------------------------------------------------------
 # Running Kani
 
+MEM_LIMIT_KB = [MEM_KB]
+
+
 def limit_mem():
     import resource
-    resource.setrlimit(resource.RLIMIT_AS, (MEM_KB * 1024, MEM_KB * 1024))
+    resource.setrlimit(resource.RLIMIT_AS, (MEM_LIMIT_KB[0] * 1024, MEM_LIMIT_KB[0] * 1024))
 
 
 def kani_env():
@@ -556,6 +559,23 @@ def check(prop, tier, keep=False):
             cmds.append(cmd)
             text = open(log_path, errors="replace").read()
             parsed = parse_log(text, group)
+            # Harnesses that ran out of memory / were killed in the parallel run get one more chance
+            # alone with a larger memory limit before they are declared inconclusive.
+            big = int(os.environ.get("VERIF_BIG_MEM_KB", str(52 * 1024 * 1024)))
+            for h in group:
+                r0 = parsed[h["full_name"]]
+                oom_like = r0["status"] in ("ERROR", "NO-VERDICT", "NOT-RUN") or (
+                    r0["status"] == "FAILED" and not r0["failed_checks"])
+                if oom_like and big > MEM_LIMIT_KB[0] and len(group) > 1 or (oom_like and big > MEM_LIMIT_KB[0]):
+                    MEM_LIMIT_KB[0] = big
+                    solo_log = os.path.join(logs_dir, f"{prop}-{tier}-{h['name']}-solo.log")
+                    try:
+                        rc_s, wall_s, cmd_s = run_kani(twin_dir, flavour, package, [h], tmo, 1, solo_log)
+                    finally:
+                        MEM_LIMIT_KB[0] = MEM_KB
+                    cmds.append(cmd_s + "   # solo rerun with the larger memory limit")
+                    parsed[h["full_name"]] = parse_log(open(solo_log, errors="replace").read(), [h])[h["full_name"]]
+                    parsed[h["full_name"]]["solo_rerun"] = True
             for h in group:
                 r = parsed[h["full_name"]]
                 r["harness"] = h
